@@ -34,7 +34,7 @@ var c01Sinks = []string{"text", "vtext", "attr", "attr2", "bound", "vbind", "bou
 // and canary are still judged.
 var c01RawTextTags = map[string]bool{"noscript": true, "xmp": true, "iframe": true, "noembed": true, "noframes": true}
 var c01Constructs = []string{"plain", "if", "else", "for-root", "for-root2", "for-child", "for-tmpl", "for-obj",
-	"inc-static", "inc-bound", "inc-scope", "inc-troot", "inc-troot-req", "inc-troot-nested", "slot-default", "slot-named", "slot-prop", "layout-var", "layout-page"}
+	"inc-static", "inc-bound", "inc-scope", "inc-troot", "inc-troot-req", "inc-troot-nested", "inc-wrap-twice", "inc-wrap-loop", "slot-default", "slot-named", "slot-prop", "layout-var", "layout-page"}
 var c01Nbhs = []string{"none", "plain", "entity", "attrs"}
 
 // decoded neighbour text per neighbourhood (source form, parsed form)
@@ -168,6 +168,14 @@ func c01Build(sink, construct, nbh string) c01Tpl {
 		t.files = map[string]string{"page.vuego": wrap(`<template include="c.vuego" p="{{ v }}"></template>`), "c.vuego": `<template :required="p">` + mk("p", "") + `<i v-for="x in two">{{ x }}</i></template>`}
 	case "inc-troot-nested": // root template that is itself an include
 		t.files = map[string]string{"page.vuego": wrap(`<template include="o.vuego" :p="v"></template>`), "o.vuego": `<template include="c.vuego" :q="p"></template>`, "c.vuego": `<template><div class="c">` + mk("q", "") + `</div></template>`}
+	case "inc-wrap-twice": // a wrapper component (its root tag is an include forwarding the prop) used twice: first with the value, then with a constant
+		t.files = map[string]string{"page.vuego": wrap(`<template include="w.vuego" :p="v" :first="t"></template><template include="w.vuego" :p="w" :first="f"></template>`),
+			"w.vuego": `<template include="c.vuego" :q="p" :show="first"></template>`,
+			"c.vuego": `<div class="c"><template v-if="show">` + mk("q", "") + `</template><i v-else>{{ q }}</i></div>`}
+	case "inc-wrap-loop": // the wrapper used once per item of [value, constant]
+		t.files = map[string]string{"page.vuego": wrap(`<template v-for="(i, it) in vw"><template include="w.vuego" :p="it" :idx="i"></template></template>`),
+			"w.vuego": `<template include="c.vuego" :q="p" :k="idx"></template>`,
+			"c.vuego": `<div class="c"><template v-if="k == 0">` + mk("q", "") + `</template><i v-else>{{ q }}</i></div>`}
 	case "inc-scope":
 		t.files = map[string]string{"page.vuego": wrap(`<template include="c.vuego"></template>`), "c.vuego": `<div class="c">` + mk("v", "") + `</div>`}
 	case "slot-default":
@@ -183,7 +191,7 @@ func c01Build(sink, construct, nbh string) c01Tpl {
 	default:
 		panic("construct " + construct)
 	}
-	if construct == "inc-static" || construct == "inc-bound" || strings.HasPrefix(construct, "inc-troot") {
+	if construct == "inc-static" || construct == "inc-bound" || strings.HasPrefix(construct, "inc-troot") || strings.HasPrefix(construct, "inc-wrap") {
 		// keep literal judgement (where the sink allows it); values that decode as JSON are exempted in Exec
 		_, _, _, _, lit := c01SinkEl(sink, nbh, "p", "")
 		t.litOK = lit
@@ -194,7 +202,7 @@ func c01Build(sink, construct, nbh string) c01Tpl {
 func c01Data(val string) map[string]any {
 	return map[string]any{
 		"v": val, "w": "W", "t": true, "f": false, "secret": c01Canary,
-		"vs": []any{val}, "os": []any{map[string]any{"name": val}}, "two": []any{1, 2},
+		"vs": []any{val}, "os": []any{map[string]any{"name": val}}, "two": []any{1, 2}, "vw": []any{val, "W"},
 	}
 }
 
@@ -431,7 +439,7 @@ func (p *c01) Exec(ctx core.Ctx, cc any) core.Obs {
 		}
 		// literal: the sink contains the value as characters
 		if t.litOK {
-			if (c.Construct == "inc-static" || c.Construct == "inc-bound" || strings.HasPrefix(c.Construct, "inc-troot")) && c01JSONLike(h) {
+			if (c.Construct == "inc-static" || c.Construct == "inc-bound" || strings.HasPrefix(c.Construct, "inc-troot") || strings.HasPrefix(c.Construct, "inc-wrap")) && c01JSONLike(h) {
 				o.Cell("not-judged/json-prop-literal")
 				continue
 			}
